@@ -1,6 +1,7 @@
 """C20 — Summaries report the fluxes of the solution they describe."""
 from contracts import misc_small  # noqa
 from contracts import c20_reaction_summary as RS
+from contracts import c20_frames as FS
 from props._generic import run_property, replay_with_driver
 
 LEVEL = "other"
@@ -8,18 +9,44 @@ KEYS = ["Summary._normalize_threshold"]
 
 
 def run(rep):
-    run_property(rep, KEYS, more=[(["ReactionSummary._generate"], RS.HOOKS)], explanation=(
+    run_property(rep, KEYS, more=[(["ReactionSummary._generate"], RS.HOOKS),
+                                       (["ModelSummary._generate", "MetaboliteSummary._generate"], FS.HOOKS),
+                                       (["MetaboliteSummary.__init__"], FS.HOOKS_INIT)], explanation=(
         "Deductive part is thin and stated as such: Summary._normalize_threshold (the display threshold every summary applies before "
         "rendering) is proved: None -> tolerance, below tolerance -> tolerance, otherwise the given value. ReactionSummary._generate is "
         "proved as data flow for every shape of its arguments: the flux shown is solution[<id of THIS reaction>] of the solution "
         "passed in (looked up by identifier) or, when none was passed, of exactly one pfba(model) call; a float fva triggers exactly "
         "one flux_variability_analysis(model, reaction_list=[this reaction], fraction_of_optimum=<that float>) whose result is what "
         "is joined to the flux table, a given frame is joined as it is, no fva joins nothing; the summary's tolerance is the "
-        "model's (pandas operations uninterpreted; pfba / FVA abstract calls). The metabolite and model summaries mutate their "
-        "frames in place (boolean masks, .loc assignment, *=), which the opaque algebra cannot model soundly: their flux tables are "
-        "NOT proved and rest on pandas semantics: bounded driver (frames against the Solution passed in for every "
-        "metabolite and reaction of generated models x solutions x fva settings; every summary renders to text, HTML and a frame)."),
-        trusted=["pandas semantics", "string formatting"])
+        "model's (pandas operations uninterpreted; pfba / FVA abstract calls). ModelSummary._generate and "
+        "MetaboliteSummary._generate (contracts/c20_frames.py) are proved for every shape of (solution, fva) in two layers. Data flow: "
+        "the in-place frame updates (frame[col] = v, frame[[cols]] = v, frame.loc[mask, cols] = v, op=) are executed as functional "
+        "updates of the ONE local / attribute that holds the frame - sound because the frame was created in the function and no other "
+        "name or possible view of it is bound at the write (checked by the setitem hook at every write; it refuses otherwise). Meaning: "
+        "under the ASSUMED row-wise semantics of the pandas operations (contract pandas.rowwise: label alignment of labelled right-hand "
+        "sides, positional for .values, boolean-mask selection, left join on unique labels, floats as reals without NaN) and the "
+        "assumed copy contract (cobra.copy@summary), for an ARBITRARY boundary reaction of model.boundary (precondition: each has "
+        "exactly one metabolite; finite tolerance) resp. an arbitrary element of the summary's reaction list: exactly one row, labelled "
+        "by its identifier, rows = list length; factor = get_coefficient of the (single) metabolite resp. of the summarised metabolite; "
+        "flux = solution[id] x factor, set to 0 when |.| < tolerance; with fva: minimum / maximum = the FVA range ends (zeroed below "
+        "tolerance BEFORE scaling - documented finding: the flux is thresholded AFTER scaling, so for |factor| != 1 a shown flux can lie "
+        "outside its shown range; the statement's form is proved under |factor| = 1 / threshold-commutes hypothesis) x factor, swapped "
+        "when factor < 0; the row is listed under uptake / producing iff flux > 0 or (flux = 0 and factor > 0), under secretion / "
+        "consuming iff flux < 0 or (flux = 0 and factor < 0), in exactly one of them when factor != 0, with the same cells; percent = "
+        "|flux| / the (opaque) pandas sum of |flux| of that side; objective value = SIGMA over the copied coefficient dictionary of "
+        "solution[copy.id] x coefficient (nan and a placeholder when linear_reaction_coefficients is empty); the solution is the one "
+        "passed in, else exactly one pfba(model); a float fva triggers exactly one flux_variability_analysis(model=model, "
+        "reaction_list=model.boundary resp. [the ids of exactly these reactions], fraction_of_optimum=that float). MetaboliteSummary.__init__ is proved to build self._reactions as "
+        "the copies of the members of the frozenset metabolite.reactions, each member exactly once (length = cardinality, ghost "
+        "enumeration of the set and the permutation of sorted), to copy the metabolite, and to call _generate once with (model, "
+        "solution, fva) as given (Summary.__init__ assumed: three lines behind a zero-argument super()). NOT proved: that the "
+        "percentages sum to one and that totals balance (opaque sums), NaN behaviour, rendering: bounded driver (frames against the "
+        "Solution passed in for every metabolite and reaction of generated models x solutions x fva settings; every summary renders "
+        "to text, HTML and a frame)."),
+        trusted=["pandas semantics (row-wise meaning assumed: contract pandas.rowwise)", "string formatting",
+                 "Reaction.copy / Metabolite.copy keep identifiers and coefficients (cobra.copy@summary)",
+                 "frames created in _generate are not aliased by pandas internals (no view of a frame survives a write)",
+                 "Summary.__init__ (assumed: sets _flux / _tolerance to None)"])
 
 
 def replay(payload):
